@@ -503,6 +503,10 @@ class ExprMixin:
                     return self.contains(tuple(container.conc.keys()), item)
                 return self.contains(tuple(container.conc), item)
             ty = container.sym.ty
+            if container.kind == "list" and ty.args[0].name in ("Ref", "Int", "Str") \
+                    and ctx.type_of(item) is not None and ctx.type_of(item).name != "Opt":
+                from .core import mem_fn
+                return mem_fn(ty)(container.sym.t, ctx.term(item, ty.args[0]))      # set view of the list
             if container.kind == "list":
                 s = sort_of(ty)
                 k = z3.Int(ctx.fresh_name("k"))
